@@ -24,12 +24,16 @@ open Driver KrakenModel.BlobStore
 
 namespace BlobStoreM
 
+/-- `k<i>` ↦ i; `kb<j>` ↦ 9000+j: a key the disk store must reject (empty, ".", "..", with a separator) -/
 def key? (t : String) : Option Nat :=
   match t.toList with
+  | 'k' :: 'b' :: ds => (String.ofList ds).toNat?.map (9000 + ·)
   | 'k' :: ds => (String.ofList ds).toNat?
   | _ => none
 
-def keyTok (k : Nat) : String := s!"k{k}"
+def keyTok (k : Nat) : String := if k ≥ 9000 then s!"kb{k - 9000}" else s!"k{k}"
+
+def badKey (k : Nat) : Bool := k ≥ 9000
 
 def sortNat (l : List Nat) : List Nat := l.mergeSort (fun a b => decide (a ≤ b))
 
@@ -43,14 +47,19 @@ def scope? : String → Option Scope
   | "i" => some .incomplete
   | _ => none
 
-/-- `m<j>` ↦ suffix 2j (movable), `i<j>` ↦ 2j+1 (immovable) -/
+/-- `m<j>` ↦ suffix 2j (movable), `i<j>` ↦ 2j+1 (immovable); `x<j>` ↦ 2000+j: a suffix the disk store
+    must reject (empty, "..", with a separator, the name of the data file or of one of its own sidecars) -/
 def sfx? (t : String) : Option Nat :=
   match t.toList with
   | 'm' :: ds => (String.ofList ds).toNat?.map (2 * ·)
   | 'i' :: ds => (String.ofList ds).toNat?.map (2 * · + 1)
+  | 'x' :: ds => (String.ofList ds).toNat?.map (2000 + ·)
   | _ => none
 
-def sfxTok (n : Nat) : String := if n % 2 = 0 then s!"m{n / 2}" else s!"i{n / 2}"
+def sfxTok (n : Nat) : String :=
+  if n ≥ 2000 then s!"x{n - 2000}" else if n % 2 = 0 then s!"m{n / 2}" else s!"i{n / 2}"
+
+def badSfx (n : Nat) : Bool := n ≥ 2000
 
 def handle? (t : String) : Option Nat :=
   match t.toList with
@@ -102,6 +111,7 @@ structure St where
   prev : State := init 0
   pend : Pend := {}
   hs : List Handle := []     -- ms: handles in creation order (h0, h1, …)
+  planted : List (Nat × String) := []   -- ds: files planted in the store's tree (key, what)
 
 def completeKeys (s : State) : List Nat := (s.blobs.filter (·.2.complete)).map (·.1)
 
@@ -205,11 +215,42 @@ def stepOp (s : St) (args impl : List String) : Option (St × StepOut) :=
     | .err e => errTok e
     | .absent => "absent"
     | _ => "ok"
+  -- a metadata call (disk store) with a suffix that does not name a sidecar file of its own: refused
+  -- after the lookup and the scope filter, nothing changes
+  let badSfxOp (name : String) (k : Nat) (sc : Scope) : Option (St × StepOut) :=
+    if s.mem then none else
+    let obs := match lookup s.m k sc with
+      | .error e => [errTok e]
+      | .ok _ => ["invalidsfx"]
+    some ({ s with prev := s.m, pend := { name := name, key := some k } },
+          { obs := obs, branch := s!"{name}.{obs.headD ""}",
+            propfails := if obs = impl then [] else
+              if obs = ["invalidsfx"] then [pf "invalid-suffix-accepted" s!"{name} {keyTok k}: the suffix does not name a sidecar file of its own, implementation returned {sp impl}"]
+              else judge name obs impl })
   match args with
   | ["create", kt, nt, dt] => do
     let k ← key? kt
     let n ← nat? nt
     let d ← bytes? dt
+    -- the disk store rejects a key that does not name a directory of its own: nothing happens
+    if badKey k then
+      (if s.mem then none else
+       some ({ s with prev := s.m, pend := { name := "create", key := some k, size := n } },
+             { obs := ["invalidkey"], branch := "create.invalidkey",
+               propfails := if impl = ["invalidkey"] then [] else
+                 [pf "invalid-key-accepted" s!"create {kt}: the key does not name a directory of its own, implementation returned {sp impl}"] }))
+    else
+    -- a file planted where the blob's directory or data file goes: the creation fails on the file
+    -- system after admission (and after the evictions admission took); the reservation is released
+    if !s.mem ∧ s.planted.any (fun p => p.1 = k ∧ (p.2 = "data" ∨ p.2 = "dirfile")) then
+      let r := createFailing s.m k n
+      let obs := match r.2 with | .err .badArg => ["ioerr"] | o => outToks o
+      let br := match r.2 with
+        | .err .badArg => if r.1.queue.length < s.m.queue.length then "ioerr-evict" else "ioerr"
+        | o => cls o
+      some ({ s with m := r.1, prev := s.m, pend := { name := "create", key := some k, size := n, implOk := false } },
+            { obs := obs, branch := s!"create.{br}", propfails := judge "create" obs impl })
+    else
     let r := create s.m k n d
     let ev := match r.2 with | .created _ ev => ev | _ => []
     let br := match r.2 with
@@ -242,8 +283,23 @@ def stepOp (s : St) (args impl : List String) : Option (St × StepOut) :=
     let sc ← scope? sct
     let r := has s.m k sc
     fin "has" (some k) r (sp (outToks r.2))
+  | ["plant", kt, what] => do
+    let k ← key? kt
+    if s.mem ∨ !(what = "data" ∨ what = "dirfile" ∨ what = "cdir") then none else
+    some ({ s with planted := (k, what) :: s.planted, prev := s.m, pend := { name := "plant" } },
+          { obs := ["ok"], branch := s!"plant.{what}" })
+  | ["unplant", kt, what] => do
+    let k ← key? kt
+    if s.mem then none else
+    some ({ s with planted := s.planted.filter (· ≠ (k, what)), prev := s.m, pend := { name := "unplant" } },
+          { obs := ["ok"], branch := "unplant" })
   | ["complete", kt] => do
     let k ← key? kt
+    -- a non-empty directory planted where the complete blob goes: the rename fails, nothing changes
+    if !s.mem && s.planted.any (· = (k, "cdir")) && (match s.m.blobs.get k with | some b => !b.complete | none => false) then
+      some ({ s with prev := s.m, pend := { name := "complete", key := some k } },
+            { obs := ["ioerr"], branch := "complete.ioerr", propfails := judge "complete" ["ioerr"] impl })
+    else
     let r := markComplete s.m k
     let br := match s.m.blobs.get k with
       | none => "notexist"
@@ -277,12 +333,14 @@ def stepOp (s : St) (args impl : List String) : Option (St × StepOut) :=
     let sc ← scope? sct
     let sfx ← sfx? st
     let v ← bytes? vt
+    if badSfx sfx then badSfxOp "setmd" k sc else
     let r := setMd s.m k sc { sfx := sfx, movable := sfx % 2 = 0, val := v }
     fin "setmd" (some k) r (cls r.2)
   | ["getmd", kt, sct, st] => do
     let k ← key? kt
     let sc ← scope? sct
     let sfx ← sfx? st
+    if badSfx sfx then badSfxOp "getmd" k sc else
     let r := getMd s.m k sc sfx
     -- P5: immovable metadata is gone once the blob is complete
     let extra := match s.m.blobs.get k with
@@ -294,6 +352,7 @@ def stepOp (s : St) (args impl : List String) : Option (St × StepOut) :=
     let k ← key? kt
     let sc ← scope? sct
     let sfx ← sfx? st
+    if badSfx sfx then badSfxOp "delmd" k sc else
     let r := delMd s.m k sc sfx
     fin "delmd" (some k) r (cls r.2)
   | ["listmd", kt, sct] => do
@@ -313,6 +372,7 @@ def stepOp (s : St) (args impl : List String) : Option (St × StepOut) :=
     let p ← bytes? pt
     let off ← nat? offt
     if s.mem then none else
+    if badSfx sfx then badSfxOp "wamd" k sc else
     let r := writeAtMd s.m k sc sfx p off
     fin "wamd" (some k) r (cls r.2)
   | ["list", sct] => do
